@@ -827,7 +827,7 @@ func c01Scenarios(res *eng.Result, ss *sigSet) {
 			modset{main: h + `feature foff; container a { container c { leaf s1 { type string; } leaf after { type string; } action act { input { leaf i { type string; } } } notification nn { leaf e { type string; } } } } }`, featuresOff: []string{"foff"}},
 			modset{main: h + `feature foff; grouping g { container c { leaf s1 { type string; } } } container a { uses g { augment c { leaf gone { if-feature foff; type string; } leaf after { type string; } action act { input { leaf i { type string; } } } notification nn { leaf e { type string; } } } } } }`, featuresOff: []string{"foff"}}},
 		{"feature-off/first-child-of-augment",
-			modset{main: h + `feature foff; container a { leaf s1 { type string; } leaf after { type string; } action act { input { leaf i { type string; } } } }`+"}", featuresOff: []string{"foff"}},
+			modset{main: h + `feature foff; container a { leaf s1 { type string; } leaf after { type string; } action act { input { leaf i { type string; } } } }` + "}", featuresOff: []string{"foff"}},
 			modset{main: h + `feature foff; container a { leaf s1 { type string; } } augment "/a" { leaf gone { if-feature foff; type string; } leaf after { type string; } action act { input { leaf i { type string; } } } } }`, featuresOff: []string{"foff"}}},
 		{"feature-off/first-node-of-grouping",
 			modset{main: h + `feature foff; container a { leaf after { type string; } container c { leaf l { type string; } } } }`, featuresOff: []string{"foff"}},
